@@ -917,6 +917,7 @@ func (r *runner) finish(start time.Time) int {
 	}
 	a := agg{faults: map[string]int{}, probes: map[string]int{}, classes: map[string]int{}}
 	hashes := map[uint64]struct{}{}
+	states := map[uint64]struct{}{}
 	var samples []map[string]any
 	viols := map[string]*sim.Violation{}
 	var order []string
@@ -950,6 +951,9 @@ func (r *runner) finish(start time.Time) int {
 		}
 		for k, v := range wr.Classes {
 			a.classes[k] += v
+		}
+		for _, h := range wr.States {
+			states[h] = struct{}{}
 		}
 		if wr.HashFile != "" {
 			if b, err := os.ReadFile(wr.HashFile); err == nil {
@@ -1093,6 +1097,10 @@ func (r *runner) finish(start time.Time) int {
 		},
 		"known_findings_matched": known,
 		"simulated_time":         "bcl reads no clock; time is logical: one tick per scheduler decision (sim_steps_total)",
+	}
+	if len(states) > 0 {
+		cov["distinct_states"] = len(states)
+		cov["distinct_states_measure"] = "abstract quiescent states of the file pipeline: shape of the pending gate set (object, kind) x returned x closed x bucketed reads delivered / reads pending / Name calls / log and output writes released x flags (error delivered, input exhausted, zero-byte read seen, read after EOF)"
 	}
 	if r.excluded > 0 {
 		cov["excluded_memory_exhaustion_runs"] = r.excluded
